@@ -283,12 +283,26 @@ pub fn gen_c20(tier: &str, seed: u64, out: &mut Vec<String>) {
         let plen = 2 + rng.below(12) as usize;
         // no RET here: every transfer is direct, so control stays on instruction boundaries and the program provably touches
         // only the registers written below (returns are covered by the fully-written families)
-        let prog = random_program(&mut rng, plen, false);
+        // which of the four registers the program names (and the case writes) varies: the others keep the constructor's values
+        let skip = if rng.chance(1, 3) { rng.below(4) as u8 } else { 9 };
+        let used: Vec<u8> = (0..4u8).filter(|k| *k != skip).collect();
+        let prog = random_program_on(&mut rng, plen, false, &used);
         let (code, _) = assemble(&prog, CODE);
         raw.push(format!("newraw {} {:x} {:x}", hex(&code), CODE, CODE));
         dec_all(&code, CODE, &mut raw);
         raw.push("stack 200".into());
-        for r in ["RAX", "RCX", "RDX", "RBX"] {
+        if rng.chance(1, 3) {
+            // a failing hook: the error (and its text) is a function of the program and the written registers only
+            raw.push(format!(
+                "hook {} {} e error -",
+                rng.pick(&["before", "before", "after"]),
+                rng.pick(&["Mov", "Add", "Sub", "Inc", "Dec", "Cmp", "Jmp", "Jne", "Je", "Push", "Pop", "Nop", "Call"])
+            ));
+        }
+        for (k, r) in ["RAX", "RCX", "RDX", "RBX"].iter().enumerate() {
+            if k as u8 == skip {
+                continue;
+            }
             // never a code address: `push r; ret` would otherwise land inside an instruction, whose bytes decode to something
             // that legitimately reads registers this family leaves unwritten
             let mut v = rng.val();
@@ -308,13 +322,57 @@ pub fn gen_c20(tier: &str, seed: u64, out: &mut Vec<String>) {
             raw.push("execute 1000".into());
             raw.push("state".into());
         }
-        for r in ["RAX", "RCX", "RDX", "RBX", "RSP", "RIP"] {
-            raw.push(format!("rr 64 {}", r));
+        for (k, r) in ["RAX", "RCX", "RDX", "RBX", "RSP", "RIP"].iter().enumerate() {
+            if k as u8 != skip {
+                raw.push(format!("rr 64 {}", r));
+            }
         }
         raw.push("areas".into());
         raw.push("trace".into());
         raw.push("callstack".into());
         raw.push("render".into());
+    }
+    // many pipes open at once: descriptor numbers are random (and never observed here), but which bytes arrive where and how
+    // many a read returns is decided by the program alone
+    let mp = if tier == "thorough" { 4 } else { 1 };
+    for _ in 0..mp {
+        const BUF: u64 = 0x20_0000;
+        let np = 1200 + rng.below(600);
+        let prog = vec![syscall(), jmp(0, false)];
+        let (code, _) = assemble(&prog, CODE);
+        emit_new(&mut raw, &code, CODE);
+        raw.push(setregs_at(&mut rng, CODE));
+        raw.push(format!("zero {:x} {:x} ~", BUF, 16 * np + 0x1000));
+        raw.push("syscalls 22".into());
+        let data = BUF + 16 * np + 0x100;
+        for p in 0..np {
+            raw.push("rw 64 RAX 16".into());
+            raw.push(format!("rw 64 RDI {:x}", BUF + 16 * p));
+            raw.push("step".into());
+            raw.push("rr 64 RAX".into());
+            raw.push("step".into());
+        }
+        for p in 0..np {
+            raw.push(format!("mwb {:x} {:02x}{:02x}", data, p & 0xff, (p >> 8) & 0xff));
+            raw.push("rw 64 RAX 1".into());
+            raw.push(format!("ldregq RDI {:x}", BUF + 16 * p + 8));
+            raw.push(format!("rw 64 RSI {:x}", data));
+            raw.push(format!("rw 64 RDX {:x}", 1 + (p & 1)));
+            raw.push("step".into());
+            raw.push("rr 64 RAX".into());
+            raw.push("step".into());
+        }
+        for p in 0..np {
+            raw.push("rw 64 RAX 0".into());
+            raw.push(format!("ldregq RDI {:x}", BUF + 16 * p));
+            raw.push(format!("rw 64 RSI {:x}", data + 0x40));
+            raw.push("rw 64 RDX 8".into());
+            raw.push("step".into());
+            raw.push("rr 64 RAX".into());
+            raw.push(format!("mrb {:x} 2", data + 0x40));
+            raw.push("step".into());
+        }
+        raw.push("state".into());
     }
     // loaded ELF images: symbol resolution (aliases at one address), image, trace rendering
     let e = if tier == "thorough" { 600 } else { 60 };
